@@ -49,6 +49,9 @@ pub enum MStep {
     Post { op: u16, ok: bool, last: bool, frac: u16 },
     RingPoll,
     Drop { op: u16, cancel: CancelChoice },
+    /// The kernel ends operation `op` with -EINTR / -ECANCELED although nobody
+    /// asked for that (final completion, no F_MORE): a10 must re-issue it.
+    Fault { op: u16, eintr: bool },
     /// Drop the Ring while operations are in flight (queue handles and the
     /// descriptor stay alive); afterwards only futures are dropped and the
     /// kernel posts what it still owes (zero-copy notifications).
@@ -75,6 +78,7 @@ pub fn strategy() -> impl Strategy<Value = MultiCase> {
         8 => (any::<u16>(), prop::bool::weighted(0.9), prop::bool::weighted(0.12), any::<u16>()).prop_map(|(op, ok, last, frac)| MStep::Post { op, ok, last, frac }),
         4 => Just(MStep::RingPoll),
         1 => (any::<u16>(), cancel).prop_map(|(op, cancel)| MStep::Drop { op, cancel }),
+        1 => (any::<u16>(), any::<bool>()).prop_map(|(op, eintr)| MStep::Fault { op, eintr }),
     ];
     let steps = (proptest::collection::vec(step, 0..70), proptest::option::weighted(0.2, any::<u16>())).prop_map(|(mut steps, ring_drop): (Vec<MStep>, Option<u16>)| {
         if let Some(at) = ring_drop {
@@ -148,6 +152,7 @@ struct Op {
     /// Zero-copy: the first (result) completion.
     zc_first: Option<i32>,
     zc_first_consumed: bool,
+    zc_saw_notif: bool,
     /// The consumer saw the end / the resolution.
     done: bool,
     dropped_running: bool,
@@ -157,6 +162,11 @@ struct Op {
     total_len: usize,
     yielded: usize,
     posted_count: usize,
+    /// The submission as first published (a re-issue must be identical).
+    first_sqe: Option<Sqe>,
+    /// A fault was consumed and everything before it yielded: the next poll
+    /// must re-issue the operation.
+    restarts: usize,
 }
 
 struct Exec<'c> {
@@ -243,6 +253,7 @@ impl<'c> Exec<'c> {
                         if zc {
                             if item.flags & abi::CQE_F_NOTIF != 0 {
                                 // Carries no result.
+                                op.zc_saw_notif = true;
                             } else {
                                 op.zc_first_consumed = true;
                                 if is_final {
@@ -477,6 +488,7 @@ impl<'c> Exec<'c> {
             let sqe = sim::sim().the_ring().read_sqe_slot(tail);
             self.ops[i].started = true;
             self.ops[i].user_data = sqe.user_data;
+            self.ops[i].first_sqe = Some(sqe);
             let addr = (sqe.user_data & !1) as usize;
             self.ops[i].state_serial = track::lookup(addr).map(|b| b.serial);
             let want_op = match self.ops[i].kind {
@@ -491,6 +503,57 @@ impl<'c> Exec<'c> {
             if self.ops.iter().enumerate().any(|(k, o)| k != i && o.started && o.user_data == sqe.user_data && !(o.final_consumed && o.fut.is_none())) {
                 self.fail("C02", "user-data-collision", format!("{name} uses user_data {:#x} which a live operation already uses", sqe.user_data));
             }
+            return;
+        }
+        // A fault (-EINTR / -ECANCELED final completion) at the head of what is
+        // left to hand out: the operation is re-issued, transparently.
+        let is_fault = |res: i32, flags: u32| (res == -libc::EINTR || res == -libc::ECANCELED) && flags & abi::CQE_F_MORE == 0;
+        let zc = matches!(self.ops[i].kind, MKind::SendZc { .. } | MKind::SendVecZc { .. });
+        let restart_due = if self.is_multishot(i) || !zc {
+            self.ops[i].delivered.front().is_some_and(|x| is_fault(x.res, x.flags))
+        } else {
+            self.ops[i].final_consumed && self.ops[i].zc_first.is_some_and(|r| r == -libc::EINTR || r == -libc::ECANCELED) && !self.ops[i].zc_saw_notif
+        };
+        if restart_due {
+            self.classes.push("restart");
+            match got {
+                Got::Pending => {}
+                Got::Err(raw, ref text) => {
+                    self.fail("C09", "fault-visible", format!("{name} handed the interruption to the caller: {text} ({raw:?})"));
+                    self.ops[i].done = true;
+                    return;
+                }
+                ref other => {
+                    self.fail("C09", "fault-visible", format!("{name} resolved with {other:?} after the kernel interrupted it (it must be re-issued)"));
+                    self.ops[i].done = true;
+                    return;
+                }
+            }
+            if full {
+                if published != 0 {
+                    self.fail("C09", "resubmitted-into-full-queue", format!("{name} re-issued into a full queue"));
+                }
+                // Stays due: the next poll with room re-issues it.
+                return;
+            }
+            if published != 1 {
+                self.fail("C09", "not-restarted", format!("{name} was interrupted by the kernel and re-polled with room in the queue, but published {published} submissions (expected the re-issue)"));
+                self.ops[i].done = true;
+                return;
+            }
+            let sqe = sim::sim().the_ring().read_sqe_slot(tail);
+            if Some(sqe) != self.ops[i].first_sqe {
+                self.fail("C09", "resubmission-differs", format!("{name}: the re-issued submission {sqe:?} differs from the original {:?}", self.ops[i].first_sqe));
+            }
+            let op = &mut self.ops[i];
+            op.serial = None;
+            op.delivered.clear();
+            op.in_cq.clear();
+            op.final_posted = false;
+            op.final_consumed = false;
+            op.zc_first = None;
+            op.zc_first_consumed = false;
+            op.restarts += 1;
             return;
         }
         if published != 0 {
@@ -797,6 +860,30 @@ impl<'c> Exec<'c> {
         }
     }
 
+    fn fault(&mut self, raw: u16, eintr: bool) {
+        self.sync();
+        // Only operations whose future is alive (a dropped one is being
+        // cancelled anyway) and which have not posted anything final yet; a
+        // zero-copy send only before its result completion.
+        let c: Vec<usize> = (0..self.ops.len()).filter(|i| self.ops[*i].serial.is_some() && !self.ops[*i].final_posted && self.ops[*i].fut.is_some() && self.ops[*i].zc_first.is_none()).collect();
+        if c.is_empty() {
+            self.ctx.skipped_steps += 1;
+            return;
+        }
+        let i = c[pick_index(raw, c.len())];
+        let serial = self.ops[i].serial.unwrap();
+        let e = if eintr { libc::EINTR } else { libc::ECANCELED };
+        let mut s = sim::sim();
+        if s.the_ring().req(serial).is_some_and(|r| !r.done) {
+            s.the_ring().complete(serial, -e, 0, false);
+            drop(s);
+            if !matches!(self.ops[i].kind, MKind::Accept | MKind::Write { .. }) {
+                self.ops[i].zc_first = Some(-e);
+            }
+            self.classes.push("kernel-interruption");
+        }
+    }
+
     fn ring_poll(&mut self) {
         if self.ring_gone {
             self.ctx.skipped_steps += 1;
@@ -888,6 +975,7 @@ pub fn run(case: &MultiCase, ctx: &mut Ctx, prop: &'static str) -> Vec<&'static 
             final_consumed: false,
             zc_first: None,
             zc_first_consumed: false,
+            zc_saw_notif: false,
             done: false,
             dropped_running: false,
             state_serial: None,
@@ -895,6 +983,8 @@ pub fn run(case: &MultiCase, ctx: &mut Ctx, prop: &'static str) -> Vec<&'static 
             total_len: 0,
             yielded: 0,
             posted_count: 0,
+            first_sqe: None,
+            restarts: 0,
         })
         .collect();
     let mut exec = Exec { world, fd, ops, ctx, prop, events_seen: sim::events_len(), consumed_seqs: BTreeSet::new(), classes: Vec::new(), stop: false, accepted: Vec::new(), cancel_script, ring_gone: false };
@@ -911,6 +1001,7 @@ pub fn run(case: &MultiCase, ctx: &mut Ctx, prop: &'static str) -> Vec<&'static 
             MStep::RingPoll => exec.ring_poll(),
             MStep::Drop { op, cancel } => exec.drop_op(*op, *cancel),
             MStep::DropRing => exec.drop_ring(),
+            MStep::Fault { op, eintr } => exec.fault(*op, *eintr),
         }
     }
 
